@@ -471,6 +471,35 @@ fn main()
         out.case(&format!("g {} | 0 | {}", hex(&s), ser(&c)), &answer(&s));
     }
 
+    // large WHOLE exponents (beyond the i32 range, where an integer-power routine would have to saturate or wrap), positive
+    // and negative, on bases for which the size and the parity of the exponent matter
+    {
+        let lit = |t: &str| Box::new(Ast::Lit(t.to_string()));
+        let bases: Vec<Ast> = vec![
+            Ast::Bin('-', lit("0"), lit("1")), Ast::Neg(lit("1")), Ast::Bin('+', lit("1"), lit("1.0e-10")), Ast::Bin('-', lit("1"), lit("1.0e-10")),
+            Ast::Lit("0.999999".to_string()), Ast::Lit("1.0000001".to_string()), Ast::Lit("2".to_string()), Ast::Lit("0.5".to_string()),
+            Ast::Neg(lit("1.0000000001")), Ast::Lit("1".to_string()), Ast::Neg(lit("2"))];
+        let exps = ["3", "31", "1023", "1024", "65536", "2147483646", "2147483647", "2147483648", "2147483649", "4294967295", "4294967296",
+                    "4294967297", "10000000000", "1.0e10", "1.0e11", "99999999999.", "9007199254740993", "18446744073709551615", "1.e300"];
+        for b in bases.iter()
+        {
+            for (j, e) in exps.iter().enumerate()
+            {
+                for neg in [false, true]
+                {
+                    if neg && j % 2 == 1 && j < 5 { continue; }
+                    let ex = if neg { Ast::Neg(lit(e)) } else { Ast::Lit(e.to_string()) };
+                    let a = Ast::Bin('^', Box::new(b.clone()), Box::new(ex));
+                    let a = match (j + neg as usize) % 4 { 0 => Ast::Bin('*', lit("2"), Box::new(a)), 1 => Ast::Neg(Box::new(a)), _ => a };
+                    let c = lay(&a, 0, &mut rng, false);
+                    let mut s = String::new();
+                    flatten(&c, &mut s);
+                    out.case(&format!("g {} | 0 | {}", hex(&s), ser(&c)), &answer(&s));
+                }
+            }
+        }
+    }
+
     // malformed by construction
     let nmal = 300 * scale;
     for _ in 0..nmal
